@@ -4,7 +4,9 @@ import (
 	"bytes"
 	"fmt"
 	"reflect"
+	"runtime"
 	"strconv"
+	"strings"
 	"sync"
 
 	structform "github.com/elastic/go-structform"
@@ -98,6 +100,13 @@ func opConc(args []string) string {
 			seq = append(seq, concPipeline(in, c))
 		}
 	}
+	userSeq := make([]string, n)
+	for g := 0; g < n; g++ {
+		userSeq[g] = concUserPipeline(cuInput(g), func() {})
+		if !strings.Contains(userSeq[g], fmt.Sprintf("Level:%d ", 1+g%3)) || !strings.Contains(userSeq[g], fmt.Sprintf("Exp:%d ", 1000+g)) {
+			return "differ:sequential-user-pipeline:" + userSeq[g]
+		}
+	}
 	res := make([]string, n)
 	var wg sync.WaitGroup
 	for g := 0; g < n; g++ {
@@ -110,6 +119,12 @@ func opConc(args []string) string {
 				}
 			}()
 			for round := 0; round < rounds; round++ {
+				// instances built from shared option values, documents in chunks with a
+				// scheduling point between the chunks
+				if got, want := concUserPipeline(cuInput(g), runtime.Gosched), userSeq[g]; got != want {
+					res[g] = fmt.Sprintf("differ:%d:user", g)
+					return
+				}
 				i := 0
 				// goroutines start at different inputs so that first-use and cached-use of a type overlap
 				for k := range concInputs {
